@@ -42,6 +42,8 @@ fn specs() -> Vec<Spec> {
         s("three-contenders-free-value", vec![], vec![vec![Insert(1, V)], vec![Insert(2, V)], vec![Insert(3, V)]], Some(V)),
         s("two-contenders-full-bucket", full(), vec![vec![Insert(1, X)], vec![Insert(2, X)]], Some(X)),
         s("two-contenders-vs-compact", full(), vec![vec![Insert(1, X)], vec![Insert(2, X)], vec![Compact]], Some(X)),
+        s("insarr-contenders-vs-compact", full(), vec![vec![InsertArray(1, vec![X, W])], vec![Insert(2, X)], vec![Compact]], None),
+        s("two-contenders-both-spill", vec![(9, H), (8, G)], vec![vec![Insert(1, X)], vec![Insert(2, X), Insert(2, W)]], None),
         s("owner-reinsert-vs-contender", vec![(1, V)], vec![vec![Insert(1, V)], vec![Insert(2, V)]], None),
         s("release-vs-contender", vec![(1, V)], vec![vec![Remove(1, V)], vec![Insert(2, V)]], None),
         s("release-vs-contender-full-bucket", full(), vec![vec![Remove(9, H)], vec![Insert(2, H), Insert(2, X)]], None),
